@@ -185,6 +185,7 @@ Definition locs_of (s : string) : list loc :=
   else if String.eqb s "nested-block" then [LNestedBlocks]
   else if String.eqb s "statement-pointer" then [LStmtPtrs]
   else if String.eqb s "call-arguments" then [LCallArgs]
+  else if String.eqb s "expression-pointer" then [LExprPtrs]
   else [LTypes; LGlobalVars].     (* unknown class: makes every comparison below fail *)
 
 Definition subset (a b : list loc) : bool := forallb (fun l => mem_loc l b) a.
